@@ -191,6 +191,17 @@ CLAIMED['C15'] = dict(
          'exp/log/sin/.../non-integer powers are uninterpreted (congruence only); floats as reals; shapes <= 2 nested operators (3 in the shared / piecewise families); the reference evaluator and differentiator in vf/props/c15.py.',
     ref='DESIGN.md section 4, C15')
 
+CLAIMED['C12'] = dict(
+    engine='symx',
+    technique='symbolic execution of the real write_inpfile / read_inpfile (InpFile.write/read, to_si/from_si, control and rule parsers) on a model of z3 Real/Int proxies; numbers cross the real file as tokens whose read-back value is a fresh variable within half a unit of the last printed digit; SMT (z3 LRA/LIA) decides per path that every attribute returns within the precision of the file and that a second cycle is the identity',
+    text='The kitchen-sink model (every element type, statuses, curves, patterns, demand categories, sources, options, tags, vertices, simple controls on status/setting at times, clock times, levels and pressures, rules with AND/OR/ELSE/PRIORITY) '
+         'with ~230 symbolic numeric attributes is written and read back twice, for each of the ten flow units (INP 2.2; 2.0 for two unit systems quick / all ten thorough). On every feasible path: same structure after the normalisations the statement allows; every '
+         'numeric attribute z3-proved within the tolerance table of vf/props/c12.py (11 significant digits in general; 6 decimals for curves and patterns; 4 decimals for reaction and energy entries; 6 digits inside rules); the second file has the '
+         'same text as the first (token by token) and the second model is z3-equal to the first copy.',
+    note='Trusted: z3; floats as reals (the digit-level behaviour of float formatting is covered by the replay only); the token model of str.format / float(); one model structure; times concrete except control instants; '
+         'the tolerance table is this check\'s reading of "the precision of the file format".',
+    ref='DESIGN.md section 4, C12')
+
 NOT_APPLICABLE = {
     'C03': 'compares the numerical output of the closed EPANET shared library with a compiled Newton/SuperLU iteration; neither can be executed '
            'symbolically with the tools on this image and a contract standing in for EPANET would be the property itself (DESIGN.md section 5)',
